@@ -319,6 +319,10 @@ void Exec::check_accessors(Obj &o, const char *when, bool must_be_optimal) {
 	} else {
 		// stale-solution rule: an accessor may fail; if the vectors are served they must be optimal for the current model
 		if (!rs && st == QS_LP_OPTIMAL && (r_x || r_pi)) { /* status says optimal but vectors unavailable: not a stale *solution* */ }
+		// the infeasibility certificate is a solution accessor too: after an edit it either fails or proves the problem as it now stands infeasible
+		// (the array has exactly as many entries as the problem has rows now)
+		if (m > 0) { QArr y(m); int r_y = mpq_QSget_infeas_array(o.p, y.p()); after_lib_call("accessor");
+			if (!r_y) { probe("c05.certificate_served_after_edit"); Verdict fv = check_farkas(o.m, vec(y, m)); if (!fv.ok) { violate("C05", "stale-certificate:" + ctx, "after an edit QSget_infeas_array still succeeds, with multipliers that are no certificate for the problem as it stands: " + fv.why); return; } } }
 		if (r_x || r_pi) return;
 		probe("c05.accessor_served_after_edit");
 	}
